@@ -40,6 +40,9 @@ func c06values() []func() interface{} {
 		// values that a column with a declared raw type rejects (300 into int8, text into a number)
 		func() interface{} { return 300 },
 		func() interface{} { return "soon" },
+		// a nested row handed to Set / ImportAtKey (over nothing, over a scalar, over another nested row)
+		func() interface{} { rr := jsonline.NewRow(); rr.Set("q", 1); rr.Set("b", "z"); return rr },
+		func() interface{} { rr := jsonline.NewRow(); rr.Set("other", true); return rr },
 	}
 }
 
